@@ -2,3 +2,5 @@
 -- `Cachelito/Props/`, helper lemmas under `Cachelito/Lemmas/`; `Cachelito/All.lean` imports everything.
 import Cachelito.Basic
 import Cachelito.Core
+import Cachelito.Wrapper
+import Cachelito.System
